@@ -4,6 +4,9 @@ import PartituraModel.Model.PianoRollSession
 import PartituraModel.Model.PianoRollFloat
 import PartituraModel.Model.PianoRollDecodeQ
 import PartituraModel.Model.PianoRollKinds
+import PartituraModel.Model.PianoRollPcF
+import PartituraModel.Model.PianoRollMargin
+import PartituraModel.Model.PianoRollDecode32
 
 open Wire Model Model.PianoRoll
 
@@ -251,6 +254,14 @@ def handle (ts : List String) : String :=
       match computePcKwF kind arr kw with
       | none => "err"
       | some r => fmtPc r
+  | "pcf" :: rest =>
+    -- the code's arithmetic throughout: binary64 frames and the binary64 division of the normalisation (compared exactly)
+    match run (do let kind ← str; let kw ← parsePcKw; let arr ← parseArray; pure (kind, kw, arr)) rest with
+    | none => "bad-request"
+    | some (kind, kw, arr) =>
+      match computePcKwFF kind arr kw with
+      | none => "err"
+      | some r => fmtPc r
   | "pcq" :: rest =>
     match run (do let kind ← str; let kw ← parsePcKw; let arr ← parseArray; pure (kind, kw, arr)) rest with
     | none => "bad-request"
@@ -275,12 +286,23 @@ def handle (ts : List String) : String :=
       | none => "err"
       | some notes =>
         fmtList (fun (p, on, du, v) => fmtList id [fmtInt p, fmtTime on, fmtTime du, fmtInt v]) notes
+  | "dec32" :: rest =>
+    -- `time_div` a numpy.float32: the quotient in binary32 (Model/PianoRollDecode32.lean)
+    match run (do let rows ← nat; let ncols ← nat; let td ← rat
+                  let cells ← list (do let p ← nat; let j ← nat; let v ← int; pure (p, j, v))
+                  pure (rows, ncols, td, cells)) rest with
+    | none => "bad-request"
+    | some (rows, ncols, td, cells) =>
+      match decodeStored32 rows (denseCols rows ncols cells) td with
+      | none => "err"
+      | some notes =>
+        fmtList (fun (p, on, du, v) => fmtList id [fmtInt p, fmtTime on, fmtTime du, fmtInt v]) notes
   | "prv" :: rest =>
     -- arguments of any kind (Model/PianoRollKinds.lean)
     match run (do let kind ← str; let kw ← parsePyArgs; let arr ← parseArray; pure (kind, kw, arr)) rest with
     | none => "bad-request"
     | some (kind, kw, arr) =>
-      match computePianorollPy kind arr kw with
+      match computePianorollPyQ kind arr kw with
       | .bad => "not-modelled"
       | .raise => "err"
       | .ok none => "err"
